@@ -303,6 +303,22 @@ def check_c07(tier, seed):
         ck.cov['functions_encoded'] = list(ck.cov.get('functions_encoded', [])) + ['run_clock_error_bound_poller (one iteration over arbitrary loop-carried state): PHC term of the messages']
     except EngineError as e:
         ck.inconclusive.append('PHC term of the poller messages: %s' % e)
+    # PHC term, which reports get it: the configured reference id is the big-endian packing of the name's bytes, i.e. the id chronyd
+    # reports for a refclock of that name (a differently computed id never matches and the PHC term is silently left out)
+    if not ck.violations:
+        try:
+            from .daemon_poller import refid_part
+            sub = Check('C07', tier, seed)
+            refid_part(sub, tier)
+            for key, desc, path in sub.violations:
+                ck.violations.append(('phc-term-selection:' + key, 'the PHC error bound is part of the bound of the reports whose reference id is the configured one: ' + desc, path))
+            ck.inconclusive += ['configured reference id: ' + i for i in sub.inconclusive]
+            for k_ in ('obligations', 'discharged', 'queries', 'evaluations', 'distinct_nontrivial'):
+                ck.cov[k_] = ck.cov.get(k_, 0) + sub.cov.get(k_, 0)
+            ck.cov['kani'] = sub.cov.get('kani')
+            ck.cov['functions_encoded'] = list(ck.cov.get('functions_encoded', [])) + ['refid_to_u32 (engine K: all ASCII strings of <= 5 bytes)']
+        except EngineError as e:
+            ck.inconclusive.append('configured reference id: %s' % e)
     # the bound that is PUBLISHED for a synchronised report is the bound extracted from that report (plus its PHC term), whatever the
     # updater published before: no history of earlier reports makes the record carry a different value (C08's pairing clause)
     if not ck.violations:
